@@ -289,8 +289,15 @@ class Exec:
         if goal is False:
             goal = z3.BoolVal(False)
         full = '%s:%s' % (self.cur_func, name)
-        self.obligations.append(Obligation(full, st.pc, goal, 'proof', line,
-                                           self.cur_func, note))
+        parts = _split_goal(goal) if ':body-ensures:' in name else [goal]
+        if len(parts) == 1:
+            self.obligations.append(Obligation(full, st.pc, goal, 'proof',
+                                               line, self.cur_func, note))
+            return
+        for k, g in enumerate(parts):
+            self.obligations.append(Obligation('%s#%d' % (full, k), st.pc, g,
+                                               'proof', line, self.cur_func,
+                                               note))
 
     def canary(self, st, name, line=0):
         full = '%s:canary:%s' % (self.cur_func, name)
@@ -387,6 +394,26 @@ class Exec:
             sg = Signal('return', v)
             sg.line = s.lineno
             yield st1, sg
+
+    def st_Delete(self, s, st, fi, c):
+        # del lst[a:]  -- truncation of a summarised list (in place)
+        if len(s.targets) == 1 and isinstance(s.targets[0], ast.Subscript) \
+                and isinstance(s.targets[0].slice, ast.Slice) and \
+                s.targets[0].slice.upper is None and \
+                s.targets[0].slice.step is None and \
+                s.targets[0].slice.lower is not None:
+            t = s.targets[0]
+            for st1, lst in self.ev(t.value, st, fi):
+                for st2, a in self.ev(t.slice.lower, st1, fi):
+                    if not isinstance(lst, TokList):
+                        raise Unsupported('del on %r' % (lst,))
+                    keep = self.list_slice(lst, None, a, st2, s.lineno)
+                    lst.segs[:] = keep.segs
+                    st2.mut += 1
+                    st2.writes.append((lst.lid, '$list'))
+                    yield st2, None
+            return
+        raise Unsupported('del statement at %d' % s.lineno)
 
     def st_Break(self, s, st, fi, c):
         yield st, Signal('break')
@@ -1757,6 +1784,11 @@ class Exec:
                 sg = segs[0]
                 ln = sym.imax(sg.ln - k, 0)
                 return TokList([Many(ln, sg.mk, sg.fresh, sg.label)])
+        if lo is None and hi is not None and len(lst.segs) == 1 and \
+                isinstance(lst.segs[0], Many):
+            sg = lst.segs[0]
+            b = sym.clamp_index(hi, n)
+            return TokList([Many(b, sg.mk, sg.fresh, sg.label, sg.indexed)])
         # general: a sub-list whose elements are elements of lst
         a = 0 if lo is None else sym.clamp_index(lo, n)
         b = n if hi is None else sym.clamp_index(hi, n)
@@ -2125,6 +2157,29 @@ def _path_of(node):
 
 
 _MUTATORS = ('append', 'extend', 'insert', 'pop', 'sort', 'remove', 'clear')
+
+
+def _split_goal(g, depth=0):
+    """conjuncts of a goal (And / If at the top are split so that every
+    clause is its own, smaller obligation)"""
+    if not isinstance(g, z3.BoolRef) or depth > 4:
+        return [g]
+    if z3.is_and(g):
+        out = []
+        for c in g.children():
+            out += _split_goal(c, depth + 1)
+        return out
+    if z3.is_app_of(g, z3.Z3_OP_ITE):
+        c, a, b = g.children()
+        return ([z3.Implies(c, x) for x in _split_goal(a, depth + 1)] +
+                [z3.Implies(z3.Not(c), x) for x in _split_goal(b,
+                                                               depth + 1)])
+    if z3.is_implies(g):
+        a, b = g.children()
+        parts = _split_goal(b, depth + 1)
+        if len(parts) > 1:
+            return [z3.Implies(a, x) for x in parts]
+    return [g]
 
 
 def refine_list(ex, st, lst, fn):
